@@ -113,6 +113,14 @@ def run_catalog(pid: str, mutants: list[Mutant], seed: int = 0, jobs: int | None
                 r["verdict"] = "detected-as-analysis-error"
             else:
                 r["verdict"] = "SURVIVED"
+        elif m.expect == "undecided":
+            # a variant the rule must neither pass nor report: it has to say that it cannot decide (exit 2)
+            if new:
+                r["verdict"] = "FALSE-ALARM"
+            elif r["status"] == "analysis-error":
+                r["verdict"] = "silent"
+            else:
+                r["verdict"] = "SURVIVED"
         else:
             if new or (r["status"] == "analysis-error" and base_code != 2):
                 r["verdict"] = "FALSE-ALARM"
